@@ -816,6 +816,8 @@ def m_opt_clone(I, a, t, c):
 def m_file_open(I, a, t, c):
     path = M._strval(I, a[0])
     tf = getattr(I, 'text_files', None)
+    if (tf is None or path not in tf) and path in (getattr(I, 'files', None) or {}):
+        return M._ok(Agg('seqio-src', 0, [path]))          # a virtual sequence file opened as a plain file (seq_io readers, `ska lo -r`)
     if tf is None or path not in tf:
         return Agg('adt:std::result::Result', 1, [Opaque(('io-error', path))])
     return M._ok(Agg('textfile', 0, [tf[path]]))
